@@ -339,6 +339,27 @@ def bounded_strings(tier, seed):
             'rule': 'distinct = (function, lengths / character-set class of the arguments)'}
 
 
+# ---- the html-ascii-case-insensitive collation: compare = code point comparison of the folded strings (folding itself: uninterpreted, checked on all 128 ASCII
+#      characters and a sample beyond by the bounded stand-in collation_aware_functions) ---------------------------------------------------------------
+from elementpath import collations as _coll          # noqa: E402
+_FOLD = z3.Function('ascii_fold', z3.StringSort(), z3.StringSort())
+
+
+def strcoll_case(S, ex):
+    a, b = S.str('s1'), S.str('s2')
+    return Case([a, b], hooks={'s1.translate': lambda ex, node, args, kw: VStr(_FOLD(a.t)), 's2.translate': lambda ex, node, args, kw: VStr(_FOLD(b.t))},
+                names={'f1': VStr(_FOLD(a.t)), 'f2': VStr(_FOLD(b.t))})
+
+
+CONTRACTS.append(Contract(
+    'html_ascii_case_insensitive_strcoll', 'C09', lambda: _coll.html_ascii_case_insensitive_strcoll, strcoll_case,
+    post=[('sign_of_the_code_point_comparison_of_the_folded_strings',
+           "returned and result == (1 if f1 > f2 else -1 if f1 < f2 else 0)"),
+          ('zero_iff_the_folded_strings_are_equal', "returned and (result == 0) == (f1 == f2)")],
+    native=None, expect_min_obligations=2,
+    notes=['str.translate(ASCII_LOWER_TABLE) is an uninterpreted function here; that it folds exactly A-Z is checked by the bounded stand-in collation_aware_functions']))
+
+
 def xpath10_strings_vs_libxml2(tier, seed):
     """The XPath 1.0 string functions with the XPath 1.0 parser against libxml2 (lxml) on the same document: every argument form the 1.0 grammar
     allows (string literals, node-sets, numbers incl. NaN/Infinity, booleans: 1.0 converts arguments with string()/number())."""
